@@ -647,16 +647,18 @@ func (ndb *nodeDB) DeleteVersionsFrom(fromVersion int64) error {
 		}
 		for i := len(legacyRoots) - 1; i >= 0; i-- {
 			root := legacyRoots[i]
+			// The root goes first: once it is gone the version does not exist any
+			// more, and whatever is left of its nodes when the batch is flushed in
+			// between is unreachable.
+			// it will skip the orphans because orphans will be removed at once in `deleteLegacyVersions`
+			if err := ndb.batch.Delete(root.key); err != nil {
+				return err
+			}
 			// delete the legacy nodes (an empty tree has an empty root hash and no nodes)
 			if len(root.hash) > 0 {
 				if err := ndb.deleteLegacyNodes(root.version, root.hash); err != nil {
 					return err
 				}
-			}
-			// it will skip the orphans because orphans will be removed at once in `deleteLegacyVersions`
-			// delete the legacy root
-			if err := ndb.batch.Delete(root.key); err != nil {
-				return err
 			}
 		}
 		// Update the legacy latest version forcibly
@@ -664,26 +666,11 @@ func (ndb *nodeDB) DeleteVersionsFrom(fromVersion int64) error {
 		fromVersion = legacyLatestVersion + 1
 	}
 
-	// Delete the nodes for new format. The keys are collected first: the batch
-	// may be flushed at any Delete, and no write may happen within the domain of
-	// an open iterator.
-	var staleKeys [][]byte
-	if err = ndb.traverseRange(nodeKeyPrefixFormat.KeyInt64(fromVersion), nodeKeyPrefixFormat.KeyInt64(latest+1), func(k, _ []byte) error {
-		staleKeys = append(staleKeys, ibytes.Cp(k))
-		return nil
-	}); err != nil {
-		return err
-	}
-	for _, k := range staleKeys {
-		if err = ndb.batch.Delete(k); err != nil {
-			return err
-		}
-	}
-
 	// NOTICE: we don't touch fast node indexes here, because it'll be rebuilt later because of version mismatch.
 	// The mismatch has to be made explicit, though: versions committed later
 	// without maintaining the index can reach the labelled version number
-	// again, so the label of the now stale index is dropped.
+	// again, so the label of the now stale index is dropped, before anything
+	// else so that it never outlives a version it names.
 	if ndb.hasUpgradedToFastStorage() {
 		ndb.mtx.Lock()
 		err = ndb.batch.Delete(metadataKeyFormat.Key([]byte(storageVersionKey)))
@@ -692,6 +679,43 @@ func (ndb *nodeDB) DeleteVersionsFrom(fromVersion int64) error {
 		if err != nil {
 			return err
 		}
+	}
+
+	// Delete the nodes for new format. The keys are collected first: the batch
+	// may be flushed at any Delete, and no write may happen within the domain of
+	// an open iterator. The versions go from the newest down (a version shares
+	// nodes of earlier versions only) and within a version the root entry goes
+	// first, so that wherever the batch happens to be flushed every version that
+	// still has its root entry is complete.
+	var staleKeys [][]byte
+	if err = ndb.traverseRange(nodeKeyPrefixFormat.KeyInt64(fromVersion), nodeKeyPrefixFormat.KeyInt64(latest+1), func(k, _ []byte) error {
+		staleKeys = append(staleKeys, ibytes.Cp(k))
+		return nil
+	}); err != nil {
+		return err
+	}
+	prefixLen := nodeKeyPrefixFormat.Length()
+	for end := len(staleKeys); end > 0; {
+		start := end - 1
+		for start > 0 && bytes.Equal(staleKeys[start-1][:prefixLen], staleKeys[end-1][:prefixLen]) {
+			start--
+		}
+		var version int64
+		nodeKeyPrefixFormat.Scan(staleKeys[start][:prefixLen], &version)
+		rootKey := nodeKeyFormat.Key(GetRootKey(version))
+		group := staleKeys[start:end]
+		for i, k := range group {
+			if bytes.Equal(k, rootKey) {
+				group[0], group[i] = group[i], group[0]
+				break
+			}
+		}
+		for _, k := range group {
+			if err = ndb.batch.Delete(k); err != nil {
+				return err
+			}
+		}
+		end = start
 	}
 
 	ndb.resetLatestVersion(dumpFromVersion - 1)
